@@ -326,6 +326,24 @@ Fixpoint has_nonfinite (v : pyval) : bool :=
   end.
 Definition finite_val (v : pyval) : bool := py_val v && negb (has_nonfinite v).
 
+(* ---------- values the generator can meet as DEFAULT values ----------
+   graphql-core builds them from SDL / introspection literals: finite floats, and +-inf from an
+   overflowing literal such as 1e999 (nan cannot be written).  A float lexeme stands for the float
+   whose repr it is, so the spellings 1e309 / -1e309 (what ast.unparse writes for +-inf, not the repr
+   of any float) are not values of the domain; evaluation reads them back as inf / -inf. *)
+Definition inf_lex (l : chars) : bool := chars_eqb l (s2l "inf") || chars_eqb l (s2l "-inf").
+Definition inf_spelling (l : chars) : bool := chars_eqb l (s2l "1e309") || chars_eqb l (s2l "-1e309").
+Definition canon_float (l : chars) : chars :=
+  if chars_eqb l (s2l "1e309") then s2l "inf" else if chars_eqb l (s2l "-1e309") then s2l "-inf" else l.
+Fixpoint dv_val (v : pyval) : bool :=
+  match v with
+  | PFloat lx => (float_tok lx && negb (inf_spelling lx)) || inf_lex lx
+  | PList l => forallb dv_val l
+  | PDict kv => nodup_keys (map fst kv) && forallb (fun p => dv_val (snd p)) kv
+  | _ => true
+  end.
+Definition is_atom (v : pyval) : bool := match v with PList _ | PDict _ => false | _ => true end.
+
 Definition ascii_str (s : chars) : bool := forallb (fun c => code c <? 128) s.
 
 (* ---------- sexp codec:  n | (b t) | (i 12) | (f "1.5") | (s "x") | (l v...) | (d (k v)...) ---------- *)
